@@ -93,7 +93,14 @@ class Ctx:
         """declare the abstract path the following obligations are judged on (asg as returned by absint.explore); None = no path.
         A path whose assignment contains a choice on an unevaluated condition (key ('c', ...)) may be infeasible: a failing obligation
         on it is not a finding but an undecided instance."""
-        self._path_opaque = None if asg is None else next((k for k in asg if isinstance(k, tuple) and k and k[0] == "c"), None)
+        self._path_opaque = None
+        if asg is not None:
+            ck = next((k for k in asg if isinstance(k, tuple) and k and k[0] == "c"), None)
+            if ck is not None:
+                from . import absint as _absint
+                # a concrete witness for all exact-but-unrefinable comparisons on the path establishes its feasibility
+                if not _absint.path_witness(asg):
+                    self._path_opaque = ck
 
     def check(self, rule, instance, ok, func, construct, message, node=None, witness=None, detail="", file=None):
         """obligation + finding when it fails."""
